@@ -18,3 +18,4 @@ import DateutilVerif.Properties.TzObjGen   -- translator tie (wt-iso): obligatio
 #print axioms C17.gen_eq_model_utcoffset
 #print axioms C17.gen_eq_model_dst
 #print axioms C17.cache_step_gen
+#print axioms C17.gen_eq_model_tzname
